@@ -6,8 +6,8 @@ git diff > /tmp/seed-$id/patch.check.diff; cmp -s $sd/patch.diff /tmp/seed-$id/p
 cargo test --workspace --offline 2>&1 | grep -E "^test result" | awk '{p+=$4; f+=$6} END {print "suite with change: passed", p, "failed", f}'
 cp $sd/demo.rs rasn-compiler-tests/tests/seed_demo.rs
 echo "demo WITH change:"; cargo test --offline -p rasn-compiler-tests --test seed_demo 2>&1 | grep -E "^test result|panicked" | head -4
-git stash -q
+git diff > /tmp/seed-$id/.confirm.diff; git checkout -q -- .
 echo "demo WITHOUT change:"; cargo test --offline -p rasn-compiler-tests --test seed_demo 2>&1 | grep -E "^test result|panicked" | head -4
-git stash pop -q
+git apply /tmp/seed-$id/.confirm.diff
 rm -f rasn-compiler-tests/tests/seed_demo.rs
 git status --short
